@@ -1,6 +1,8 @@
 """What is claimed, at which level, and what is not (source of MANIFEST.json)."""
 
 ENGINES = [
+    {"name": "frames", "path": "frames/", "serves_properties": ["C08", "C09", "C10"],
+     "kind_free_text": "reads / effects frame conditions decided by a syntactic scan of the real ASTs (over-approximation of reads)"},
     {"name": "pyvc", "path": "pyvc/", "serves_properties": ["C12", "C13", "C14", "C16", "C20"],
      "kind_free_text": "verification-condition generator: symbolic execution of the real function ASTs (re-read from /repo each run) against sidecar contracts; obligations discharged by z3 (cvc5 for z3's unknowns)"},
 ]
@@ -33,6 +35,17 @@ CLAIMED["C16"] = dict(
     level_note="Trusted: z3/cvc5, engine encoding, struct.pack/unpack('!L') as big-endian base-256, socket recv/sendall, json.loads, os.unlink (modelled by contracts with ghost origins). Assumed callee contracts inside serve: run_command (returns / daemon bug / SystemExit; cmd_stop removes the status file), IPCServer.__enter__ (accept or idle timeout). Posix branches only (sys.platform of the check host); Windows named pipes, ready_to_read and real socket behaviour are not decided. One arbitrary iteration of the serve loop (invariant: status file present, last command not 'stop').",
     technique="contract-based deductive verification: VC generation from the real AST with loop invariants, exceptional postconditions and ghost origins; SMT discharge (z3, cvc5)")
 
+CLAIMED["C09"] = dict(
+    engine="frames", category="proof", design_ref="DESIGN.md section 5 C09",
+    text="Frame condition decided on the real source: every Options attribute read through an options-like receiver anywhere in the analysis phase of package mypy is in OPTIONS_AFFECTING_CACHE or in a pinned exemption list (each exemption with its reason, reported as an assumption); every per-module option is in the key; no computed getattr(options, ...) in the analysis phase.",
+    level_note="Syntactic over-approximation of reads (receivers recognised by name: options, *.options, opts, ...); a read through another alias would be missed. The phase map (which functions are print-time / cli / daemon shell) and the exemption reasons are assumptions. Not decided here: that find_cache_meta really rejects a record whose snapshot differs (planned with C02), config-file/inline sources of options.",
+    technique="contract-based verification: reads-frame (effects) condition checked by computation over the real ASTs")
+CLAIMED["C08"] = dict(
+    engine="frames", category="proof", design_ref="DESIGN.md section 5 C08",
+    text="One clause only ('answers do not depend on what the subtype caches contain') as a frame condition on mypy/subtypes.py: every SubtypeContext flag, proper_subtype and every state.<global> read by SubtypeVisitor is a component of build_subtype_kind's key, and the type_state cache entry points are only called with a kind built by build_subtype_kind.",
+    level_note="The lattice laws themselves (reflexivity, transitivity, join/meet bounds, union simplification) are NOT decided: they need the semantics of ~6 kLoC of mutually recursive visitors. subtype_context.options is read but not part of the key (listed assumption).",
+    technique="contract-based verification: frame condition checked by computation over the real AST")
+
 NOT_APPLICABLE = {
     "C01": "soundness of the whole checker against CPython's dynamic semantics: no per-function contract expresses it (DESIGN.md 5 C01)",
     "C05": "compiler correctness of mypyc end to end: a simulation proof, not a function contract (DESIGN.md 5 C05); the numeric leaf is C15",
@@ -43,8 +56,6 @@ NOT_APPLICABLE = {
     "C04": "not yet built in this round",
     "C06": "not yet built in this round (bounded stand-in planned)",
     "C07": "not yet built in this round",
-    "C08": "not yet built in this round",
-    "C09": "not yet built in this round",
     "C10": "not yet built in this round",
     "C11": "not yet built in this round",
     "C15": "not yet built in this round",
